@@ -188,9 +188,13 @@ theorem QInv4.new_task {U ts0 ts qs qs'} (hi : QInv4 U none [] ts0 qs) {id : Tas
       simpa using this
   · intro i q' hq' x hx
     rcases hq i q' hq' x hx with ⟨q, hq0, hx0⟩ | ⟨rfl, rfl, hn0⟩
-    · obtain ⟨g1, g2, g3⟩ := hi.qg i q hq0 x hx0
+    · obtain ⟨g1, g2, g3, g4⟩ := hi.qg i q hq0 x hx0
       have hxid : x ≠ id := fun e => hfresh (e ▸ g1)
-      refine ⟨List.mem_append_left _ g1, ?_, ?_⟩
+      refine ⟨List.mem_append_left _ g1, ?_, ?_, ?_⟩
+      rotate_left 2
+      · intro t ht
+        obtain ⟨t0, h0, a1, _⟩ := hold x t hxid ht
+        rw [a1]; exact g4 t0 h0
       · intro t ht
         obtain ⟨t0, h0, _, a2⟩ := hold x t hxid ht
         rw [a2]; exact g2 t0 h0
@@ -202,7 +206,12 @@ theorem QInv4.new_task {U ts0 ts qs qs'} (hi : QInv4 U none [] ts0 qs) {id : Tas
             cases this
           · exact absurd h1 hxid
         · simp only [List.mem_singleton] at h; subst h; rw [hcons] at hc; cases hc
-    · refine ⟨by simp, ?_, ?_⟩
+    · refine ⟨by simp, ?_, ?_, ?_⟩
+      rotate_left 2
+      · intro t ht
+        rw [findTask_append, hdup] at ht
+        simp only [htid, if_true, Option.some.injEq] at ht
+        rw [← ht, hst, hn0]; rfl
       · intro t ht
         rw [findTask_append, hdup] at ht
         simp only [htid, if_true, Option.some.injEq] at ht
@@ -212,7 +221,8 @@ theorem QInv4.new_task {U ts0 ts qs qs'} (hi : QInv4 U none [] ts0 qs) {id : Tas
 
 theorem QInv4.mono_U {U U' f pend ts qs} (hi : QInv4 U f pend ts qs) (h : ∀ x ∈ U, x ∈ U') : QInv4 U' f pend ts qs :=
   ⟨hi.nd, fun t ht => h _ (hi.uT t ht), fun t ht c hc => h _ (hi.uC t ht c hc), hi.cnd, hi.fin, hi.cnt,
-    fun i q hq x hx => ⟨h _ (hi.qg i q hq x hx).u, (hi.qg i q hq x hx).rq, (hi.qg i q hq x hx).nl⟩⟩
+    fun i q hq x hx => ⟨h _ (hi.qg i q hq x hx).u, (hi.qg i q hq x hx).rq, (hi.qg i q hq x hx).nl,
+      (hi.qg i q hq x hx).z⟩⟩
 
 theorem addNewTasks_q (nts : List NewTask) (s s' : State) (r r' : List TaskId) (U : List TaskId)
     (hi : QInv U none [] s) (hfresh : ∀ nt ∈ nts, nt.id ∉ U) (hnd : (nts.map (·.id)).Nodup)
